@@ -22,22 +22,33 @@ EXC_CLASSES = [ValueError, KeyError, LookupError]   # what the wrapped function 
 NFLAGS = 6
 HDR = 5 + NFLAGS + 1    # result kind, value, hits, misses, currsize, flags, number of dict items
 
-KNOWN = {
-    "F3": ("lru_cache: a miss evicts an entry whose computation is still in flight "
-           "(KeyError to a waiter / more than maxsize results retained / second flight) [F3, predicate evicts_inflight]"),
-    "F8": ("lru_cache: a miss or ttl expiry removes a completed entry while a caller is still queued on its lock "
-           "(KeyError to the waiter / second flight) [F8, predicate evicts_waited]"),
-    "F30": ("lru_cache: _currsize lives on the wrapper, the entries per event loop / per cache_clear(): a new loop or a "
-            "cache_clear() racing a flight leaves a phantom count (own placeholder evicted, single flight lost, KeyError "
-            "to waiters, capacity shrinks) [F30, predicate stale_count_other_loop]"),
-    "F31": ("lru_cache: a call aborted while entering the key's lock leaves an uncounted placeholder; a later miss "
-            "evicts it instead of a result: more than maxsize results retained [F31, predicate uncounted_placeholder]"),
-    "F32": ("lru_cache: maxsize=0 returns before any lock: concurrent equal calls all run at once "
-            "[F32, predicate maxsize0_no_single_flight]"),
-    "F41": ("lru_cache: a failed or cancelled computation leaves its placeholder counted in _currsize: the retry counts "
-            "the key twice, capacity shrinks, entries are evicted although the cache is not full "
-            "[F41, predicate dead_placeholder_counted]"),
-}
+# which boolean predicate of prims/Lru.v stands for which attribution class of a monitor hit
+PRED = {"F3": "evicts_inflight", "F8": "evicts_waited", "F30": "stale_count_other_loop",
+        "F31": "uncounted_placeholder", "F32": "maxsize0_no_single_flight", "F41": "dead_placeholder_counted"}
+_KNOWN = None
+
+
+def known_predicates():
+    """predicate name -> entry of /verif/known_findings.json (status 'known', property C20).  The file is the single
+    source: a hit attributed to a predicate that is not listed there is a VIOLATION."""
+    global _KNOWN
+    if _KNOWN is None:
+        _KNOWN = {}
+        try:
+            data = json.loads((core.VERIF / "known_findings.json").read_text())
+        except Exception:  # noqa: BLE001
+            data = {}
+        for e in data.get("findings", []):
+            if e.get("property") == "C20" and e.get("status") == "known" and e.get("match", {}).get("predicate"):
+                _KNOWN[e["match"]["predicate"]] = e
+    return _KNOWN
+
+
+def known_text(cls: str) -> str:
+    e = known_predicates()[PRED[cls]]
+    return f"{e.get('what', '')} [{e.get('id', cls)}, predicate {PRED[cls]}]"
+
+
 SCOPE_CANCELLED = object()
 
 
@@ -172,6 +183,11 @@ class LruRun:
         self.evict_class = {}  # key -> 'F3' | 'F30' | 'F41': a referenced placeholder of that key was popped by a miss
         self.f8_keys = set()   # keys whose completed entry was popped / expired while a caller waited on it
         self.evicted_any_inflight = None   # class of the first such eviction in this run
+        self.inflight_evictions = []       # (step, id(dict), class) of every such eviction
+        self.uncounted_evictions = []      # (step, id(dict)) of every eviction of an uncounted, unreferenced placeholder
+        self.excess_log = []               # (step, id(current dict), currsize - counted live entries) after each step
+        self.stale_pos = {}                # (id(dict), key) -> 'F31' | 'F41': computed on a leftover placeholder, which
+                                           #   keeps the position of the aborted / failed call
 
     # ------------------------------------------------------------------ monitor hits and their explanation
     def hit(self, kind: str, key, msg: str, info=None):
@@ -193,18 +209,32 @@ class LruRun:
                 return "F8"
             return None
         if kind == "exceeds":
-            if self.fu:
+            # every eviction of an uncounted placeholder (F31) and every eviction of a placeholder whose computation
+            # went on (F3 / its cause) lets ONE more result in; anything beyond that is not explained
+            d, step, excess = info["dict"], info["step"], info["excess"]
+            n31 = sum(1 for (s, dd) in self.uncounted_evictions if dd == d and s <= step)
+            inflight = [c for (s, dd, c) in self.inflight_evictions if dd == d and s <= step]
+            if excess <= n31:
                 return "F31"
-            return self.evicted_any_inflight
+            if excess <= n31 + len(inflight):
+                return inflight[0]
+            return None
         if kind == "retention":
             return info.get("cause")
         return None
 
+    def attributed(self, h):
+        """the attribution class of hit h if its predicate is a KNOWN finding of known_findings.json, else None"""
+        cls = self.explain(h)
+        if cls is not None and PRED[cls] in known_predicates():
+            return cls
+        return None
+
     def unexplained(self):
-        return [h for h in self.hits if self.explain(h) is None]
+        return [h for h in self.hits if self.attributed(h) is None]
 
     def known_classes(self):
-        return {c for c in (self.explain(h) for h in self.hits) if c}
+        return {c for c in (self.attributed(h) for h in self.hits) if c}
 
     # ------------------------------------------------------------------ set-up
     def __enter__(self):
@@ -565,6 +595,7 @@ class LruRun:
                 if rk == 0 and self.effmax == 0:
                     self.exp_misses += 1
             self.after_actor_step(code, actor, call, dobj, before, after, started, finished, rk, cause0)
+        self.excess_log.append((self.stepno, id(self.cur_dictobj()), self.live_excess()))
         obs = ([rk, rv, info1.hits, info1.misses, info1.currsize] +
                [int(b) for b in (self.fi, self.fw, self.fu, self.fd, self.fp, self.fb)] + self.observe_dict())
         self.ops += [code, x, y]
@@ -615,6 +646,16 @@ class LruRun:
                     self.ref_touch(k)              # waited for the flight and reused its result
                 elif call["exec"] is not None and k not in self.ref_order:
                     self.ref_order.append(k)       # stored after its placeholder had gone
+        if code in (0, 7) and k in after and after[k][1][1] is not None and (k not in before or before[k][1][1] is None):
+            call["installed"] = True       # this call put the placeholder there (new key, or expired value replaced)
+        # ---- a miss that computes on a leftover placeholder (installed by a call that was aborted or failed): the
+        #      entry keeps the position of that earlier call
+        if started and k in before and before[k][1][1] is not None:
+            lk0 = before[k][1][1]
+            others = [c2 for c2, cl in self.curcall.items() if c2 != actor and cl.get("lockobj") is lk0
+                      and self.stage.get(c2) in ("lock", "wrapped")]
+            if not call.get("installed") and not others:
+                self.stale_pos[(id(dobj), k)] = "F41" if id(lk0) in self.counted else "F31"
         # ---- the placeholder a miss has just counted
         if started:
             if k in after and after[k][1][1] is not None:
@@ -645,9 +686,11 @@ class LruRun:
                     self.evict_class.setdefault(kk, cls)
                     if self.evicted_any_inflight is None:
                         self.evicted_any_inflight = cls
+                    self.inflight_evictions.append((self.stepno, id(dobj), cls))
                     self.flags.add("evict_inflight")
                 elif id(lock) not in self.counted:
                     self.fu = True
+                    self.uncounted_evictions.append((self.stepno, id(dobj)))
                     self.flags.add("evict_uncounted_placeholder")
                 else:
                     self.flags.add("evict_dead_counted_placeholder")
@@ -808,17 +851,20 @@ class LruRun:
         others |= {cc["key"] for cc in self.calls if cc["key"] != k and cc["begin"] <= t1 and
                    (cc["end"] is None or cc["end"] >= t1)}
         if self.effmax is None or len(others) < self.effmax:
-            cause = cause0 or self.inflation_cause()
-            if cause is None and self.fp:
-                cause = "F30"
-            if cause is None and self.fd:
-                cause = "F41"
-            if cause is None and self.fu:
-                cause = "F31"
-            if cause is None and self.fi:
-                cause = self.evicted_any_inflight
-            if cause is None and self.fw:
-                cause = "F8"
+            # attribution, bounded by what was actually observed on the implementation:
+            #  - the count was inflated (currsize > counted live entries of this dict) at some step since the key's
+            #    last use: the cache was "full" too early -> F30 (stale / phantom count) or F41 (dead placeholder);
+            #  - the key (or the entry it displaced) was computed on a leftover placeholder and kept its stale position
+            #    -> F31 / F41;  - the key's own placeholder was popped by a miss while in flight -> its class
+            cause = None
+            inflated = max((e for (s, d, e) in self.excess_log if s >= t1 and d == id(dobj)), default=0)
+            if inflated > 0:
+                # (a second flight after a waited eviction / expiry counts its key twice as well: F8)
+                cause = "F30" if self.fp else ("F41" if self.fd else ("F8" if self.fw else None))
+            if cause is None:
+                cause = self.stale_pos.get((id(dobj), k))
+            if cause is None and k in self.evict_class:
+                cause = self.evict_class[k]
             self.hit("retention", k, f"LRU retention: key {k} was recomputed by caller {c} although only "
                                      f"{len(others)} other keys were used since its last use (maxsize={self.effmax})",
                      {"cause": cause})
@@ -899,13 +945,14 @@ class LruRun:
                 src = self.stored_at.get(cl["result"][1])
                 if src is not None:
                     per.setdefault(id(cl["dictobj"]), []).append((src[1], cl.get("read_step", cl["end"]), cl["key"]))
-        for iv in per.values():
+        for did, iv in per.items():
             for t in sorted({b for (_, b, _) in iv}):
                 ks = {k for (a, b, k) in iv if a <= t <= b}
                 if len(ks) > self.effmax:
                     self.flags.add("exceeds_maxsize")
                     self.hit("exceeds", None, f"bounded retention: keys {sorted(ks)} were all retained at step {t} "
-                                              f"(maxsize={self.effmax})")
+                                              f"(maxsize={self.effmax})",
+                             {"dict": did, "step": t, "excess": len(ks) - self.effmax})
                     return
 
     def case(self):
@@ -1374,14 +1421,14 @@ def check(tier: str) -> int:
     vm_ok, vm_log = core.coq_eval_cases("c20", "Lru", [cases[i] for i in idx], [expected[i] for i in idx])
 
     # ---- decide ----  (explanations come from what was observed on the implementation, per monitor hit)
-    n_known = {k: 0 for k in KNOWN}
+    n_known = {k: 0 for k in PRED}
     viol = []
     for r in runs:
         if not r.hits:
             continue
         for cls in r.known_classes():
             n_known[cls] += 1
-            rep.known_finding(KNOWN[cls])
+            rep.known_finding(known_text(cls))
         if r.unexplained():
             viol.append(r)
     any_tie = (not proofs_ok) or disagreements or rejected or any(r.crash for r in runs) or not vm_ok
@@ -1510,7 +1557,7 @@ def replay(path: str) -> int:
     print("observed: inflight", r.fi, "waited", r.fw, "uncounted", r.fu, "dead", r.fd, "stale count", r.fp,
           "maxsize0 concurrent", r.fb, "crash", r.crash)
     for h in r.hits:
-        print("MONITOR:", h[2], "  [explained by", r.explain(h), "]")
+        print("MONITOR:", h[2], "  [class", r.explain(h), "- known finding:", r.attributed(h) is not None, "]")
     return 1 if r.unexplained() else 0
 
 
